@@ -187,6 +187,7 @@ class Exec:
         self.global_init = {}
         self.on_call = {}
         self.on_return = {}
+        self.xsample = []           # decided oracle queries (sliced), a sample of which is re-decided by the other solvers
         self.watch_maps = None      # regex over symbolic map base names: accesses leave 'shared' events (lockset analysis)
         self.watch_fields = {}      # (obj, path) -> label
         self.trace_slow = bool(__import__('os').environ.get('SYMX_TRACE_SLOW'))
@@ -252,6 +253,7 @@ class Exec:
                 m = s2.model() if s2.check() == z3.sat else None
             self.tsolve = self.tsolve
         if res == 'unknown': self.unknowns += 1
+        if res in ('sat', 'unsat') and len(self.xsample) < 400: self.xsample.append((list(pc), extra, res))
         self.fresh_cache[key] = (res, m, pc, extra)[:2]
         self._keep = getattr(self, '_keep', []); self._keep.append((pc, extra))   # keep ASTs alive so ids stay unique
         return res, m
